@@ -163,8 +163,8 @@ def replay(c):
 def describe():
     return dict(
         rule='per element class: the minimal valid document, child words (length <= 3/4) with minimal valid children, every solver-chosen '
-             'representative value of the content type, every declared attribute singly with representative values; each built through the API, '
-             'written, parsed, re-serialised, parsed, re-serialised; non-trivial = documents that could be built and serialised',
+             'representative value of the content type, every declared attribute singly with representative values, four exponent-notation floats for decimal-typed values; each built through the API, '
+             'written (the written value compared with the stored one), parsed, re-serialised, parsed, re-serialised; non-trivial = documents that could be built and serialised',
         functions=['parser/parser.py:parse_musicxml', 'parser/parser.py:_parse_node', 'parser/parser.py:_et_xml_to_music_xml',
                    'xmlelement/xmlelement.py:XMLElement.to_string', 'XMLElement._create_et_xml_element', 'XMLElement.__setattr__', 'XMLElement._set_attributes'],
         bounds=dict(LIMITS, decimals='<= 15 significant digits', outside='attribute combinations, deeper nesting than minimal children, longer words'),
